@@ -163,6 +163,15 @@ def cases(tier, seed):
         for rlab, parg, args, kind in ([REFS[2]] if tier == "quick" else [REFS[2], REFS[1], REFS[4]]):
             for t in (("LowerHex",) if tier == "quick" else ("LowerHex", "Display", "Pointer")):
                 add("ctx_%s_%s_%s" % (lab, SHORT[t], rlab), next(rot), kind, Attr(mk(PH(parg, ty=TY[t])), args))
+    # the literal starts AND ends with a brace, but only because of escapes: not a lone placeholder                 (inert; seed C03_r2_2)
+    add("ctx_esc_both_sides_imp", "Display", "t1", Attr(["{", PH(None), "}"], ["_0"]))
+    add("ctx_esc_both_sides_lhex_fieldname", "Octal", "t1", Attr(["{", PH("_0", ty="x"), "}"]))
+    add("ctx_esc_pair_after", "Display", "t1", Attr([PH("_0"), "{}"]))
+    add("ctx_esc_pair_before_idx0", "LowerHex", "t1", Attr(["{}", PH(0, ty="x")], ["_0"]))
+    add("ctx_esc_text_before_named", "Display", "n1", Attr(["{name}=", PH("name")]))
+    add("variant_ctx_esc_both_sides", "Display", "t1", Attr(["{", PH(None), "}"], ["*_0"]), enum=True)
+    add("debug_ctx_esc_both_sides", "Debug", "t1", Attr(["{", PH("_0", ty="?"), "}"]))
+    add("debug_variant_ctx_esc_pair_after", "Debug", "n1", Attr([PH("name"), "{}"]), enum=True)
     add("ctx_two_implicit", "Display", "t2", Attr([PH(None), PH(None)], ["_0", "_1"]))
     add("ctx_textonly", "Display", "t1", Attr(["plain"]))
     add("ctx_empty", "Display", "t1", Attr([]))
